@@ -12,13 +12,13 @@ import (
 // PlusKinds are the features of the wider class W+ (C09 only).
 var PlusKinds = []string{"ptrIntoOperation", "ptrNestedInline", "ptrMissingPosition", "ptrInPtrTarget", "ptrCycle", "auxBackRef", "collisionWithRefs",
 	"danglingLocalDef", "danglingRemoteFile", "danglingRemoteFragment", "recursiveContainers", "wholeDocSchema", "paramRefToNonParam", "responseRefToNonResponse",
-	"ptrToNonSchema", "refWithSiblings", "absoluteSelfRef", "itemsRef", "deepNesting", "pathItemRefDangling", "selfRefDefinition", "ptrToSelf", "sharedRefToRemote", "sharedRefToMissing", "wholeDocPointerNested", "httpRemote", "ptrTailIntoCycle"}
+	"ptrToNonSchema", "refWithSiblings", "absoluteSelfRef", "itemsRef", "deepNesting", "pathItemRefDangling", "selfRefDefinition", "ptrToSelf", "sharedRefToRemote", "sharedRefToMissing", "wholeDocPointerNested", "httpRemote", "ptrTailIntoCycle", "collidingRecursiveImports"}
 
 // MustErrorKinds: planted at a position reachable from an operation, Flatten must return an error (ContinueOnError off).
 var MustErrorKinds = map[string]bool{"ptrMissingPosition": true, "ptrCycle": true, "ptrTailIntoCycle": true, "danglingRemoteFile": true, "danglingRemoteFragment": true, "sharedRefToMissing": true}
 
 // ResolvablePlusKinds never make a bundle unresolvable: they may be added to bundles used for load-fault enumeration.
-var ResolvablePlusKinds = []string{"sharedRefToRemote", "wholeDocSchema", "auxBackRef", "ptrIntoOperation", "ptrNestedInline", "recursiveContainers", "absoluteSelfRef", "httpRemote"}
+var ResolvablePlusKinds = []string{"sharedRefToRemote", "wholeDocSchema", "auxBackRef", "ptrIntoOperation", "ptrNestedInline", "recursiveContainers", "absoluteSelfRef", "httpRemote", "collidingRecursiveImports"}
 
 // useRef makes ref reachable from an operation through the given holder.
 func (b *Bundle) useRef(ref string, holder string) {
@@ -88,6 +88,29 @@ func (b *Bundle) Plus(kind string) {
 		if b.Variant >= 2 {
 			b.useRef(entry, "schema")
 		}
+	case "collidingRecursiveImports":
+		// imported definitions that collide with root definitions AND refer to each other through containers only
+		// (colliding imports that hold $refs are outside W)
+		x, y := "cx"+k, "cy"+k
+		b.Def(x, jx.Obj{"type": "string", "description": b.lbl("rx")})
+		b.Def(y, jx.Obj{"type": "string", "description": b.lbl("ry")})
+		wrap := func(ref string, v int) jx.Obj {
+			if v%2 == 0 {
+				return jx.Obj{"type": "array", "description": b.lbl("ra"), "items": jx.Obj{"$ref": ref}}
+			}
+			return jx.Obj{"type": "object", "description": b.lbl("rm"), "additionalProperties": jx.Obj{"$ref": ref}}
+		}
+		v := b.Variant
+		if v < 0 {
+			v = b.rng.IntN(4)
+		}
+		b.AuxDef("sub/a.json", x, wrap("#/definitions/"+y, v))
+		b.AuxDef("sub/a.json", y, wrap("#/definitions/"+x, v/2))
+		b.useRef("sub/a.json#/definitions/"+x, holder)
+		if v >= 2 {
+			b.useRef("sub/a.json#/definitions/"+y, "schema")
+		}
+		b.Tag("cycle")
 	case "auxBackRef":
 		b.Def("Back"+k, b.Obj())
 		f := Pick(b.rng, auxFiles)
